@@ -36,6 +36,9 @@ func Defs() []*schema.StoreDef {
 			{Name: "things", Kind: schema.KList, FK: Things, Derived: true}}}
 	others := &schema.StoreDef{Type: Others, BasePath: []string{"stores"},
 		Fields: []schema.Field{{Name: "name", Kind: schema.KStr}, {Name: "rank", Kind: schema.KI64}, {Name: "tags", Kind: schema.KList},
+			// alias: a nullable string whose symbol is wrapped by a value mapper (Store.MapSymbol with NotNilStringMapper):
+			// a null reads as the empty string, directly and at the end of a dotted path
+			{Name: "alias", Kind: schema.KStr, NotNilMapped: true},
 			{Name: "things", Kind: schema.KList, FK: Things, Derived: true}},
 		Links: []schema.LinkDef{{Field: "things", Target: Things, TargetField: "friends"}}}
 	things := &schema.StoreDef{Type: Things, BasePath: []string{"stores"},
@@ -92,13 +95,15 @@ type SymInfo struct {
 	// KidOnly: the set is typed to the child store layered on the target: sub-queries over it see only the members that
 	// have child data (the stored list itself may hold other ids of the parent store)
 	KidOnly bool
+	// NotNil: the symbol is wrapped by a mapper which turns null into the empty string
+	NotNil bool
 }
 
 var symbols = map[string]map[string]SymInfo{
 	Things: {"id": {Type: TStr}, "uk": {Type: TStr}, "s": {Type: TStr}, "ism": {Type: TInt}, "ibig": {Type: TInt}, "flt": {Type: TFloat}, "b": {Type: TBool}, "t": {Type: TTime}, "grp": {Type: TStr},
 		"tags": {Type: TStr, Set: true}, "nums": {Type: TStr, Set: true}, "owner": {Type: TStr, Target: Owners}, "friends": {Type: TStr, Set: true, Target: Others}, "meta": {Type: TAny, Map: true}},
 	Owners: {"kidlist": {Type: TStr, Set: true, Target: Things, KidOnly: true}, "id": {Type: TStr}, "name": {Type: TStr}, "age": {Type: TInt}, "active": {Type: TBool}, "tags": {Type: TStr, Set: true}, "things": {Type: TStr, Set: true, Target: Things}},
-	Others: {"id": {Type: TStr}, "name": {Type: TStr}, "rank": {Type: TInt}, "tags": {Type: TStr, Set: true}, "things": {Type: TStr, Set: true, Target: Things}},
+	Others: {"id": {Type: TStr}, "name": {Type: TStr}, "alias": {Type: TStr, NotNil: true}, "rank": {Type: TInt}, "tags": {Type: TStr, Set: true}, "things": {Type: TStr, Set: true, Target: Things}},
 }
 
 func Symbols(store string) map[string]SymInfo { return symbols[store] }
@@ -142,7 +147,7 @@ func GenWorld(r *core.Rand, maxThings int, small bool) *World {
 			"tags": core.Subset(r, TagPool, 0.3)}}
 	}
 	for _, id := range core.Subset(r, OtherIds, 0.6) {
-		w.Rows[Others][id] = &Row{Id: id, V: map[string]any{"name": pickNullable(r, sp, 0.25), "rank": pickNullable(r, ip[:6], 0.25), "tags": core.Subset(r, TagPool, 0.3)}}
+		w.Rows[Others][id] = &Row{Id: id, V: map[string]any{"name": pickNullable(r, sp, 0.25), "alias": pickNullable(r, sp, 0.4), "rank": pickNullable(r, ip[:6], 0.25), "tags": core.Subset(r, TagPool, 0.3)}}
 	}
 	n := r.Intn(maxThings + 1)
 	ids := core.Shuffle(r, ThingIds)
